@@ -47,6 +47,10 @@ def uniformCustom (cfg : Cfg) : Bool :=
 def ordersCover (cfg : Cfg) (src : Masters) : Bool :=
   cfg.orders.all (fun o => (allNames src).all (fun n => o.contains n))
 
+/-- `.notdef` is handled the same way in all masters: the empty fallback, or every source has its own (and it is not skipped) -/
+def notdefJoint (cfg : Cfg) (src : Masters) : Bool :=
+  cfg.notdefFallback || (!cfg.skip.contains ".notdef" && src.all (fun (m : GlyphSet) => (m.get? ".notdef").isSome))
+
 /-- no source glyph looks like one of ufo2ft's empty stand-ins -/
 def noSentinels (src : Masters) : Bool := src.all (fun (m : GlyphSet) => m.all (fun e => !isSentinel e.2))
 
